@@ -330,30 +330,76 @@ func rh6Incremental(w *World) {
 	}
 	w.floor("writes of result.runID", nRes, 1)
 	w.floor("initialisations of Task.runID", nTask, 2)
-	// Changed is computed by comparing result.runID with the caller's runID
-	resolve := w.fn(incRel, "Resolve")
-	if resolve != nil {
-		found := false
-		ast.Inspect(resolve.Decl.Body, func(x ast.Node) bool {
-			if as, ok := x.(*ast.AssignStmt); ok && len(as.Lhs) == 1 && len(as.Rhs) == 1 {
-				if s, ok := ast.Unparen(as.Lhs[0]).(*ast.SelectorExpr); ok && s.Sel.Name == "Changed" {
-					if be, ok := ast.Unparen(as.Rhs[0]).(*ast.BinaryExpr); ok && be.Op == token.EQL {
-						a, b := selField(info, be.X), selField(info, be.Y)
-						if (a == resRunID && b == taskRunID) || (a == taskRunID && b == resRunID) {
-							found = true
-							w.ok("changed-flag", as.Pos(), "Result.Changed = (result.runID == caller.runID)")
-						}
+	// Changed is computed by comparing result.runID with the caller's runID — in Resolve or in a
+	// helper it calls; in a helper the run ID may arrive as a parameter, in which case every static
+	// call site must pass a Task.runID.
+	changedFld := w.field(incRel, "Result", "Changed")
+	found := false
+	for _, b := range allFuncBodies(p) {
+		if b.Lit != nil || changedFld == nil {
+			continue
+		}
+		ast.Inspect(b.Body, func(x ast.Node) bool {
+			as, ok := x.(*ast.AssignStmt)
+			if !ok || len(as.Lhs) != 1 || len(as.Rhs) != 1 || selField(info, as.Lhs[0]) != changedFld {
+				return true
+			}
+			okRHS := false
+			if be, ok := ast.Unparen(as.Rhs[0]).(*ast.BinaryExpr); ok && be.Op == token.EQL {
+				sides := []ast.Expr{be.X, be.Y}
+				for i := 0; i < 2; i++ {
+					if selField(info, sides[i]) != resRunID {
+						continue
 					}
-					if !found {
-						w.violation("changed-flag", as.Pos(), "Result.Changed is not computed as result.runID == caller.runID")
+					other := ast.Unparen(sides[1-i])
+					if selField(info, other) == taskRunID {
+						okRHS = true
+					} else if id, isId := other.(*ast.Ident); isId {
+						// a parameter: check the call sites
+						pi := -1
+						k := 0
+						for _, fl := range b.Decl.Type.Params.List {
+							for _, nm := range fl.Names {
+								if info.Defs[nm] == info.Uses[id] && info.Uses[id] != nil {
+									pi = k
+								}
+								k++
+							}
+						}
+						if pi >= 0 {
+							sites, good := 0, 0
+							for _, cb := range allFuncBodies(p) {
+								if cb.Lit != nil {
+									continue
+								}
+								ast.Inspect(cb.Body, func(y ast.Node) bool {
+									if c, ok := y.(*ast.CallExpr); ok {
+										if f := callee(info, c); f != nil && f.Origin() == b.Obj.Origin() && pi < len(c.Args) {
+											sites++
+											if selField(info, c.Args[pi]) == taskRunID {
+												good++
+											}
+										}
+									}
+									return true
+								})
+							}
+							okRHS = sites > 0 && good == sites
+						}
 					}
 				}
 			}
+			if okRHS {
+				found = true
+				w.ok("changed-flag", as.Pos(), "Result.Changed = (result.runID == the calling Task's runID)")
+			} else {
+				w.violation("changed-flag", as.Pos(), "Result.Changed is not computed as result.runID == caller.runID")
+			}
 			return true
 		})
-		if !found {
-			w.undecided("changed-flag|missing", resolve.Decl.Pos(), "no assignment of Result.Changed found in Resolve")
-		}
+	}
+	if !found {
+		w.undecided("changed-flag|missing", token.NoPos, "no assignment of Result.Changed found in the package")
 	}
 }
 
@@ -456,81 +502,143 @@ func rbIncremental(w *World) {
 	// a receive from r.done, or happen in the leader
 	closedFn := w.fn(incRel, "closed")
 	nR := 0
-	for _, b := range allFuncBodies(p) {
-		if b.Lit != nil || b.Obj == run.Obj {
-			continue
+	// A helper that reads the payload of a *result parameter without establishing done itself
+	// imposes a requirement on its callers (like a caller-holds lock helper): the argument must be
+	// done-established at every static call site. Requirements are collected in a first pass and
+	// discharged against the call sites in a second one.
+	type req struct {
+		f     *types.Func
+		param int
+	}
+	type pendingRead struct {
+		key  string
+		pos  token.Pos
+		name string
+	}
+	reqs := map[req][]pendingRead{}
+	siteOK := map[req]int{}
+	siteBad := map[req][]token.Pos{}
+	paramIndex := func(b bodyRef, id *ast.Ident) int {
+		i := 0
+		for _, fl := range b.Decl.Type.Params.List {
+			for _, nm := range fl.Names {
+				if info.Defs[nm] == info.Uses[id] && info.Uses[id] != nil {
+					return i
+				}
+				i++
+			}
 		}
-		var analyse func(body *ast.BlockStmt, init Facts, label string)
-		analyse = func(body *ast.BlockStmt, init Facts, label string) {
-			g := buildCFG(info, body)
-			d := &Dataflow{G: g, Must: true, Init: init}
-			d.Transfer = func(n ast.Node, in Facts) Facts {
-				out := in
-				if as, ok := n.(*ast.AssignStmt); ok {
-					for _, l := range as.Lhs {
-						if id, ok := l.(*ast.Ident); ok {
-							out = out.without("done:" + id.Name)
-						}
-					}
-				}
-				inspectPost(n, func(x ast.Node) {
-					if base, ok := isRecvFrom(info, x, done); ok {
-						out = out.with("done:" + base)
-					}
-				})
-				return out
+		return -1
+	}
+	for pass := 1; pass <= 2; pass++ {
+		for _, b := range allFuncBodies(p) {
+			if b.Lit != nil || b.Obj == run.Obj {
+				continue
 			}
-			d.Branch = func(leaf ast.Expr, truth bool, s Facts) Facts {
-				if c, ok := leaf.(*ast.CallExpr); ok && closedFn != nil {
-					if f := callee(info, c); f != nil && f.Origin() == closedFn.Obj && len(c.Args) == 1 && selField(info, c.Args[0]) == done && truth {
-						return s.with("done:" + render(ast.Unparen(c.Args[0]).(*ast.SelectorExpr).X))
-					}
-				}
-				return s
-			}
-			d.Run()
-			parents := parentMap(body)
-			d.Walk(func(_ *cfg.Block, n ast.Node, before Facts) {
-				inspectPost(n, func(x ast.Node) {
-					if fl, ok := x.(*ast.FuncLit); ok {
-						analyse(fl.Body, Facts{}, label+"$lit")
-						return
-					}
-					s, ok := x.(*ast.SelectorExpr)
-					if !ok {
-						return
-					}
-					sel := info.Selections[s]
-					if sel == nil {
-						return
-					}
-					v, _ := sel.Obj().(*types.Var)
-					name, isPayload := payload[v]
-					if !isPayload || !isResultBase(s.X) {
-						return
-					}
-					if as, ok := parents[x].(*ast.AssignStmt); ok {
+			var analyse func(body *ast.BlockStmt, init Facts, label string)
+			analyse = func(body *ast.BlockStmt, init Facts, label string) {
+				g := buildCFG(info, body)
+				d := &Dataflow{G: g, Must: true, Init: init}
+				d.Transfer = func(n ast.Node, in Facts) Facts {
+					out := in
+					if as, ok := n.(*ast.AssignStmt); ok {
 						for _, l := range as.Lhs {
-							if l == ast.Expr(s) {
-								return // write, handled above
+							if id, ok := l.(*ast.Ident); ok {
+								out = out.without("done:" + id.Name)
 							}
 						}
 					}
-					nR++
-					base := render(s.X)
-					key := "read|" + label + "|" + base + "." + name
-					if before["done:"+base] {
-						w.ok(key, s.Pos(), "dominated by closed("+base+".done) == true or a receive from it")
-					} else if b.Label == "incremental.Resolve" && strings.HasSuffix(label, "$lit") {
-						// the done callback receives results only from start(): cache hit (closed) or t.run's return
-						w.ok(key, s.Pos(), "callback argument: start() passes either a result whose done is closed (cache hit) or the value returned by t.run, which returns only after the leader's deferred close or after waiting on done (checked by rule RB 'run-returns-done')")
-					} else {
-						w.violation(key, s.Pos(), "read of result payload not ordered after the close of its done channel")
+					inspectPost(n, func(x ast.Node) {
+						if base, ok := isRecvFrom(info, x, done); ok {
+							out = out.with("done:" + base)
+						}
+					})
+					return out
+				}
+				d.Branch = func(leaf ast.Expr, truth bool, s Facts) Facts {
+					if c, ok := leaf.(*ast.CallExpr); ok && closedFn != nil {
+						if f := callee(info, c); f != nil && f.Origin() == closedFn.Obj && len(c.Args) == 1 && selField(info, c.Args[0]) == done && truth {
+							return s.with("done:" + render(ast.Unparen(c.Args[0]).(*ast.SelectorExpr).X))
+						}
 					}
+					return s
+				}
+				d.Run()
+				parents := parentMap(body)
+				inCallback := b.Label == "incremental.Resolve" && strings.HasSuffix(label, "$lit")
+				d.Walk(func(_ *cfg.Block, n ast.Node, before Facts) {
+					inspectPost(n, func(x ast.Node) {
+						if fl, ok := x.(*ast.FuncLit); ok {
+							analyse(fl.Body, Facts{}, label+"$lit")
+							return
+						}
+						if c, ok := x.(*ast.CallExpr); ok && pass == 2 {
+							if f := callee(info, c); f != nil {
+								for i, a := range c.Args {
+									r := req{f.Origin(), i}
+									if _, needed := reqs[r]; !needed {
+										continue
+									}
+									if before["done:"+render(a)] || inCallback {
+										siteOK[r]++
+									} else {
+										siteBad[r] = append(siteBad[r], c.Pos())
+									}
+								}
+							}
+							return
+						}
+						s, ok := x.(*ast.SelectorExpr)
+						if !ok || pass != 1 {
+							return
+						}
+						sel := info.Selections[s]
+						if sel == nil {
+							return
+						}
+						v, _ := sel.Obj().(*types.Var)
+						name, isPayload := payload[v]
+						if !isPayload || !isResultBase(s.X) {
+							return
+						}
+						if as, ok := parents[x].(*ast.AssignStmt); ok {
+							for _, l := range as.Lhs {
+								if l == ast.Expr(s) {
+									return // write, handled above
+								}
+							}
+						}
+						nR++
+						base := render(s.X)
+						key := "read|" + label + "|" + base + "." + name
+						if before["done:"+base] {
+							w.ok(key, s.Pos(), "dominated by closed("+base+".done) == true or a receive from it")
+						} else if inCallback {
+							// the done callback receives results only from start(): cache hit (closed) or t.run's return
+							w.ok(key, s.Pos(), "callback argument: start() passes either a result whose done is closed (cache hit) or the value returned by t.run, which returns only after the leader's deferred close or after waiting on done (checked by rule RB 'run-returns-done')")
+						} else if id, isId := ast.Unparen(s.X).(*ast.Ident); isId && !strings.HasSuffix(label, "$lit") && paramIndex(b, id) >= 0 {
+							r := req{b.Obj.Origin(), paramIndex(b, id)}
+							reqs[r] = append(reqs[r], pendingRead{key, s.Pos(), name})
+						} else {
+							w.violation(key, s.Pos(), "read of result payload not ordered after the close of its done channel")
+						}
+					})
 				})
-			})
+			}
+			analyse(b.Body, Facts{}, b.Label)
 		}
-		analyse(b.Body, Facts{}, b.Label)
+	}
+	for r, reads := range reqs {
+		for _, rd := range reads {
+			switch {
+			case len(siteBad[r]) > 0:
+				w.violation(rd.key, rd.pos, fmt.Sprintf("%s reads the payload of its *result parameter; its call site at %s passes a result that is not established done", funcName(r.f), w.pos(siteBad[r][0])))
+			case siteOK[r] == 0:
+				w.violation(rd.key, rd.pos, funcName(r.f)+" reads the payload of its *result parameter and has no static call site that establishes done for it")
+			default:
+				w.ok(rd.key, rd.pos, fmt.Sprintf("helper: every one of its %d static call site(s) passes a result that is established done (or the completion callback's argument)", siteOK[r]))
+			}
+		}
 	}
 	w.floor("payload reads of incremental.result outside the leader", nR, 3)
 }
